@@ -12,6 +12,17 @@ def idl_gen(run, depth, rich):
     return g["idl_c05.ndjson"], g["idl_c06.ndjson"]
 
 
+def idl_names(run, label, thorough):
+    """Name shapes (spec/IdlNames.tla): every string over one representative per character class, as the interface name
+    and as a field name at three positions; TLC's verdict accept / reject / either against what the real parser did."""
+    n = 7 if thorough else 6
+    consts = "CONSTANTS\n IfaceLen = %d\n FieldLen = 4\n" % n
+    cases = run.generate("IdlNamesGen", "INIT Init\nNEXT Next\n" + consts, ["idl_names.ndjson"])["idl_names.ndjson"]
+    run.extra["name_space"] = len(cases)
+    table_replay(run, cases, ["idl", "-mode", "names"], "IdlNames", "SPECIFICATION TraceSpec\n" + consts + "CONSTRAINT HighWater\nPOSTCONDITION TraceAccepted\nCHECK_DEADLOCK FALSE\n",
+                 label, shards=8, nontrivial=lambda c: '"accepted":true' in c)
+
+
 def check_C05(run):
     thorough = run.tier == "thorough"
     c05, _ = idl_gen(run, 2 if thorough else 1, False)
@@ -20,8 +31,9 @@ def check_C05(run):
     args = ["idl", "-mode", "c05", "-randlay", "6" if thorough else "3"] + ([] if thorough else ["-pergap", "4"])
     table_replay(run, descs, args, "IdlTrace", TR_CFG, "C05 generated descriptions x layouts", shards=16,
                  nontrivial=lambda c: '"lay":["","sp","lf"' not in c)
+    idl_names(run, "C05 name shapes: every well-formed interface / field name is accepted and kept as written", thorough)
     run.write_evidence("model_checking",
-        "descriptions = TLC-enumerated sets D1(depth) and D2 of spec/Idl.tla (every type tree of depth <= 1 (thorough 2) - builtins, named reference, optional, array, string-keyed map, struct, enum - at every position: alias body, method input field, method output field, error parameter; all orders of up to 3 members incl. typeless errors; 6 interface-name classes); layouts = canonical + every permitted gap kind at every gap position (quick: 4 seeded kinds per position) + random multi-gap layouts, gap kinds: none, space(s), tab, LF, CRLF, trailing comment, comment-only line, empty comment, doc block of 1/2 lines, doc block followed by a blank line, final comment without newline; TLC requires the returned tree to equal the generated one, the docs to be what the layout implies, the text verbatim; non-trivial = a non-canonical layout",
+        "name shapes = all strings up to 6 (thorough 7) characters over {a, B, 9, -, .} as interface name and up to 4 over {a, B, 9, _} as field name of a method, of a nested struct and as enum member (spec/IdlNames.tla); descriptions = TLC-enumerated sets D1(depth) and D2 of spec/Idl.tla (every type tree of depth <= 1 (thorough 2) - builtins, named reference, optional, array, string-keyed map, struct, enum - at every position: alias body, method input field, method output field, error parameter; all orders of up to 3 members incl. typeless errors; 6 interface-name classes); layouts = canonical + every permitted gap kind at every gap position (quick: 4 seeded kinds per position) + random multi-gap layouts, gap kinds: none, space(s), tab, LF, CRLF, trailing comment, comment-only line, empty comment, doc block of 1/2 lines, doc block followed by a blank line, final comment without newline; TLC requires the returned tree to equal the generated one, the docs to be what the layout implies, the text verbatim; non-trivial = a non-canonical layout",
         exhaustive=thorough,
         assumptions=["documentation text is specified for comment lines of the form '# text' and the empty comment '#'",
                      "an error's optional type is read on the same line (anchored mechanism)",
@@ -36,8 +48,9 @@ def check_C06(run):
     cases = c06 if thorough else run.rng.sample(c06, min(len(c06), 6000)) + run.rng.sample(na, min(len(na), 600))
     table_replay(run, cases, ["idl", "-mode", "c06"], "IdlTrace", TR_CFG, "C06 single-token edits of valid descriptions", shards=16,
                  nontrivial=lambda c: '"accepted":true' in c)
+    idl_names(run, "C06 name shapes: every malformed interface / field name is rejected", thorough)
     run.write_evidence("model_checking",
-        "inputs = every single-token deletion, insertion (19-token alphabet incl. keywords, punctuation, names, a dotted name, a digit, a dash), substitution and adjacent transposition of the token sequences of a base set of valid descriptions (TLC: Edits / EditAt of spec/Idl.tla), rendered with minimal spacing; oracle (TLC): if the parser accepts, re-printing the returned tree with the specification's printer TokD must give back exactly the input tokens, member names unique, a method present, no optional of optional, no mixed list; if it rejects, no tree; non-trivial = the parser accepted (round trip actually evaluated)",
+        "name shapes = all strings up to 6 (thorough 7) characters over {a, B, 9, -, .} as interface name and up to 4 over {a, B, 9, _} as field name at three positions, judged by IfaceVerdict / FieldVerdict of spec/IdlNames.tla; inputs = every single-token deletion, insertion (19-token alphabet incl. keywords, punctuation, names, a dotted name, a digit, a dash), substitution and adjacent transposition of the token sequences of a base set of valid descriptions (TLC: Edits / EditAt of spec/Idl.tla), rendered with minimal spacing; oracle (TLC): if the parser accepts, re-printing the returned tree with the specification's printer TokD must give back exactly the input tokens, member names unique, a method present, no optional of optional, no mixed list; if it rejects, no tree; non-trivial = the parser accepted (round trip actually evaluated)",
         exhaustive=thorough,
         assumptions=["coverage-guided fuzzing named in the property's quantifier is outside this family of technique; token edits stand in",
                      "that every ill-formed text is rejected follows from the round trip: an accepted text equals the print of a well-formed tree"])
